@@ -315,7 +315,24 @@ def gen_coincident(rng):
 def worker(sub, idx, nchunks, n_oracle, n_plain, n_coin):
     rng = sub.rng
     for _ in range(n_oracle):
-        check_pair(sub, gen_pair(rng), oracle=True)
+        inp = gen_pair(rng)
+        r_ = rng.random()
+        if r_ < 0.10:
+            # whole-number latitudes one after the other with everything else equal (-1 and -2 hash alike in CPython)
+            a_ = dict(inp, lat1=rng.choice([-1.0, -1]), kind='whole-degree')
+            b_ = dict(a_, lat1=rng.choice([-2.0, -2]))
+            if in_domain(a_) and in_domain(b_):
+                check_pair(sub, a_, oracle=True)
+                check_pair(sub, b_, oracle=True)
+                continue
+        elif r_ < 0.18:
+            # exactly ONE end point on the equator (latitude 0.0, -0.0 or 0)
+            a_ = dict(inp, kind='one-on-equator')
+            a_[rng.choice(['lat1', 'lat2'])] = rng.choice([0.0, -0.0, 0])
+            if a_['lat1'] != a_['lat2'] and in_domain(a_):
+                check_pair(sub, a_, oracle=True)
+                continue
+        check_pair(sub, inp, oracle=True)
     for _ in range(n_plain):
         check_pair(sub, gen_pair(rng), oracle=False)
     for _ in range(n_coin):
